@@ -292,9 +292,20 @@ def group_alter(pid):
     return c
 
 
-def as_dict(pid):
-    """ModelData.as_dict(vin=True): every exported parameter that has input values is exported with them."""
+def as_dict(pid, converter=False):
+    """ModelData.as_dict(vin=True): every exported parameter that has input values is exported with them; a parameter with an
+    output converter (list-valued parameters) is exported as converter(item) over those same values."""
     E = 'self.params.$e'
+    CONV = z3.Function('oconvert', R, R)
+
+    def conv_h(ex, st, args, kw, node):
+        return NR(CONV(as_real(args[0]).val))
+
+    def getitem(ex, st, args, kw, node):
+        base, sl = args
+        if isinstance(base, Opaque) and st.ghost.get('stored') is not None:
+            return st.ghost['stored']
+        return NotImplemented
 
     def setitem(ex, st, args, kw, node):
         base, sl, value = args
@@ -309,22 +320,31 @@ def as_dict(pid):
         if s_ is None:
             return True
         vin_ = v.get(E + '.vin')
-        has = v.st.ghost.get('has_vin')
-        has = z3.BoolVal(False) if has is None else has
+        has = v.z(E + '.has_vin_attribute')      # a fact about the parameter object, not about what the code asks
         cond = z3.And(has, z3.Not(vin_.isnone))
+        if converter:
+            if not isinstance(s_, Ref):
+                return False
+            got = v.st.content(s_)
+            src_v, src_in = v.arr(E + '.v'), v.st.content(vin_.value)
+            k = fresh('k', I)
+
+            def conv_of(src):
+                return z3.And(got.n == src.n, z3.ForAll([k], z3.Implies(z3.And(k >= 0, k < src.n), got.vals[k] == CONV(src.vals[k]))))
+            return z3.And(z3.Implies(cond, conv_of(src_in)), z3.Implies(z3.Not(cond), conv_of(src_v)))
         is_vin = s_ is vin_
         is_v = isinstance(s_, Ref) and s_.loc == v.get(E + '.v').loc
         return z3.And(z3.Implies(cond, z3.BoolVal(is_vin)), z3.Implies(z3.Not(cond), z3.BoolVal(is_v)))
 
     def hasattr_h(ex, st, args, kw, node):
-        t = fresh('has_vin', Bo)
-        st.ghost['has_vin'] = t
-        return t
+        if len(args) == 2 and args[1] == 'vin':
+            return st.load(E + '.has_vin_attribute')
+        return fresh('hasattr', Bo)
     c = Contract(FMD, 'ModelData.as_dict', pid=pid, params={'self': TObj(), 'vin': TConst(True)},
-                 schema={'self.n': TInt(), 'self.params': TColl(keysort=K), E + '.export': TBool(), E + '.v': TArr(), E + '.vin': TOptional(TArr()),
-                         E + '.oconvert': TConst(None)},
+                 schema={'self.n': TInt(), 'self.params': TColl(keysort=K), E + '.export': TBool(), E + '.v': TArr(), E + '.vin': TOptional(TArr()), E + '.has_vin_attribute': TBool(),
+                         E + '.oconvert': TConst(Func('oconvert') if converter else None)},
                  calls={'dict': lambda ex, st, a, k, n: Opaque(fresh('out', z3.DeclareSort('OutDict'))), '__setitem__': setitem,
-                        'hasattr': hasattr_h, 'np.arange': lambda ex, st, a, k, n: None},
+                        'hasattr': hasattr_h, 'np.arange': lambda ex, st, a, k, n: None, 'oconvert': conv_h, '__getitem__': getitem},
                  globals_={'hasattr': Func('hasattr')},
                  loops={0: Loop(inv=[('exported-value-is-vin-when-present-else-v', post_iter)],
                                 frame=['$name', '$instance', '$conv', E + '.*'])},
@@ -332,4 +352,6 @@ def as_dict(pid):
                  ensures=[], modifies=[])
     # the per-iteration obligation: what is stored last under `name` is vin when available, else v
     c.iter_check = True
+    if converter:
+        c.tag = 'with-output-converter'
     return c
